@@ -831,3 +831,18 @@ func namedValue(p *packages.Package, e ast.Expr) types.Object {
 	}
 	return nil
 }
+
+// funcDeclAt: the function declaration of package p that contains pos.
+func funcDeclAt(p *packages.Package, pos token.Pos) *ast.FuncDecl {
+	for _, f := range p.Syntax {
+		if pos < f.Pos() || pos > f.End() {
+			continue
+		}
+		for _, d := range f.Decls {
+			if fd, ok := d.(*ast.FuncDecl); ok && fd.Pos() <= pos && pos <= fd.End() {
+				return fd
+			}
+		}
+	}
+	return nil
+}
